@@ -32,6 +32,13 @@ def opC04 : List String → Option String
         (List.range hb).foldl (fun acc by_ => (List.range wb).foldl (fun acc bx =>
           (List.range 64).foldl (fun acc k => c03fnv16 acc (c04Coef seed ci by_ bx k)) acc) acc) 14695981039346656037)
       some s!"skip {hexOf bytes} {",".intercalate (hashes.map toString)}"
+  -- seqbytes seed w h ri hs vs nc : the entropy-coded data of the baseline scan the real encoder must write for the formula coefficients
+  | ["seqbytes", seed, w, h, ri, hs, vs, nc] => do
+    let seed ← nat? seed; let w ← nat? w; let h ← nat? h; let ri ← nat? ri; let hs ← nat? hs; let vs ← nat? vs; let nc ← nat? nc
+    let comps := if nc == 1 then [(1, 1)] else [(hs, vs), (1, 1), (1, 1)]
+    match scanBytes w h comps ri (c04Coef seed) with
+    | none => some "unencodable"
+    | some bs => some s!"{bs.length} {fnv bs}"
   | ["susp", _, _, hex] => do
     let bytes ← hexBytes? hex
     match decode bytes with
